@@ -281,7 +281,7 @@ fn gen_elem(rng: &mut Rng) -> String {
 			spell_string(rng, &s)
 		}
 		6 => (*rng.pick(&["true", "false"])).to_string(),
-		7 => (*rng.pick(&["[]", "[ ]", "{}", "{ }", "[[]]", "[[ ],[]]", "\"]\"", "\",\"", "\"[\"", "\"\\\"\"", "\"\\\\\""])).to_string(),
+		7 => (*rng.pick(&["[]", "[ ]", "{}", "{ }", "[[]]", "[[ ],[]]", "[null]", "[null,7]", "[ null , 7]", "[[null]]", "[[null],2]", "{\"a\":null}", "[null,null]", "[true]", "[\"null\"]", "\"]\"", "\",\"", "\"[\"", "\"\\\"\"", "\"\\\\\""])).to_string(),
 		_ => gen_json(rng, 3),
 	}
 }
